@@ -315,3 +315,64 @@ def r6(ctx, R):
             N = Normalizer(fn)
             a = N.env.alias.get('L')
             R.check(a is not None and ast.unparse(a) == 'step.levels[level_number]', f'DefaultHooks.{fn.name} :: L is step.levels[level_number]', f'{rel}:DefaultHooks.{fn.name}', 'step.levels[level_number]', ast.unparse(a) if a is not None else None)
+
+
+@rule('C03', 'C03.R1b', 'defect signature of the overriding implementations: imex_1st_order_mass (mass matrix on u) and SweeperMPI (one node per rank)', floor=8)
+def r1b(ctx, R):
+    repo = ctx.repo
+    # ---- imex_1st_order_mass: res[m] = integrate()[m] + M(u0 - u[m+1]) on level 0 | + u0 - M u[m+1] on coarse levels (+ tau[m])
+    rel = sw.SW + 'imex_1st_order_mass.py'
+    fn = repo.func(rel, 'imex_1st_order_mass.compute_residual')
+    w = f'{rel}:imex_1st_order_mass.compute_residual'
+    R.fn(w)
+    sig = Signature(fn, rename=sw.role_renames(fn))
+    lines = sorted(l.text() for l in sig.lines if l.target.startswith('KNOWN'))
+    skip = 'stage not in self.params.skip_residual_computation'
+    want = sorted([
+        f'KNOWN = self.integrate() |  | {skip}',
+        f'KNOWN[i1 - 1] += +P.apply_mass_matrix(L.u[0] - L.u[i1]) | i1=1..M | {skip} and L.level_index == 0',
+        f'KNOWN[i1 - 1] += +L.u[0] -P.apply_mass_matrix(L.u[i1]) | i1=1..M | {skip} and L.level_index != 0',
+        f'KNOWN[i1 - 1] += +L.tau[i1 - 1] | i1=1..M | {skip} and L.tau[i1 - 1] is not None',
+    ])
+    R.check(lines == want, 'imex_1st_order_mass.compute_residual :: defect = integrate + M(u0 - u) | u0 - M u (+tau)', w, want, lines)
+    N = sig.N
+    norm = [c for c in N.contribs if c.rhs and re.fullmatch(r'abs\(\w+\[i1 - 1\]\)', c.rhs)]
+    R.check(len(norm) == 1 and sig._rn(norm[0].rhs) == 'abs(KNOWN[i1 - 1])', 'imex_1st_order_mass.compute_residual :: norm list holds abs(defect[m]) of every node', w, 'res_norm[m] = abs(res[m])', [c.describe() for c in norm])
+    fx = [c for c in N.calls if c[0].startswith('P.fix_residual(')]
+    R.check(len(fx) == 1 and fx[0][2][-1:] == ['P.fix_bc_for_residual'], 'imex_1st_order_mass.compute_residual :: boundary rows fixed only when the problem asks for it', w, 'if P.fix_bc_for_residual: P.fix_residual(res[m])', [c[0] for c in fx])
+    # ---- SweeperMPI: res = integrate(last_only=...) + u[0] - u[rank+1] (+ tau[rank]); res_norm = abs(res)
+    rel = sw.SW + 'generic_implicit_MPI.py'
+    fn = repo.func(rel, 'SweeperMPI.compute_residual')
+    w = f'{rel}:SweeperMPI.compute_residual'
+    R.fn(w)
+    sig = Signature(fn, rename=sw.role_renames(fn))
+    lines = sorted(l.text() for l in sig.lines if l.target.startswith('KNOWN'))
+    want = sorted([
+        f"KNOWN = self.integrate(last_only=L.params.residual_type[:4] == 'last') |  | {skip}",
+        f'KNOWN += +L.u[0] -L.u[self.rank + 1] |  | {skip}',
+        f'KNOWN += +L.tau[self.rank] |  | {skip} and L.tau[self.rank] is not None',
+    ])
+    R.check(lines == want, 'SweeperMPI.compute_residual :: defect of this rank\'s node = integrate + u0 - u[r+1] (+tau[r])', w, want, lines)
+    norm = [c for c in sig.N.contribs if c.rhs and sig._rn(c.rhs) == 'abs(KNOWN)']
+    R.check(len(norm) == 1, 'SweeperMPI.compute_residual :: res_norm = abs(defect)', w, 'abs(res)', [c.describe() for c in sig.N.contribs if 'abs(' in (c.rhs or '')][:3])
+    # the reductions carry that norm (relative ones divided by |u0|)
+    red = {c.guards[-1]: c.rhs for c in sig.N.contribs if c.target == 'L.status.residual' and c.guards and 'residual_type ==' in c.guards[-1]}
+    nl = norm[0].target if norm else 'res_norm'
+    want_red = {"L.params.residual_type == 'full_abs'": f'self.comm.allreduce({nl}, op=MPI.MAX)', "L.params.residual_type == 'last_abs'": f'self.comm.bcast({nl}, root=self.comm.size - 1)',
+                "L.params.residual_type == 'full_rel'": f'self.comm.allreduce({nl} / abs(L.u[0]), op=MPI.MAX)', "L.params.residual_type == 'last_rel'": f'self.comm.bcast({nl} / abs(L.u[0]), root=self.comm.size - 1)'}
+    got_red = {}
+    for k, v in red.items():
+        got_red[k.split(' and ')[-1]] = v
+    R.check(got_red == want_red, 'SweeperMPI.compute_residual :: full -> allreduce(MAX), last -> bcast(root = last node), rel -> / |u0|', w, want_red, got_red)
+    # ---- the skip branch of every implementation keeps the old value only when the stage is listed
+    base = sw.sweeper_base(repo)
+    for ci in repo.overriders(base, 'compute_residual'):
+        if not repo.is_library(ci) or ci is base:
+            continue
+        f2 = ci.methods['compute_residual']
+        N2 = Normalizer(f2)
+        sk = [c for c in N2.contribs if re.fullmatch(r'(L|lvl)\.status\.residual', c.target) and c.rhs and 'if L.status.residual is None' in c.rhs]
+        if not sk:
+            continue
+        ok = all(c.guards == ['stage in self.params.skip_residual_computation'] for c in sk)
+        R.check(ok, f'{ci.name}.compute_residual :: residual kept without computation only if the stage is in skip_residual_computation', f'{ci.module.relpath}:{ci.name}.compute_residual', 'guard: stage in self.params.skip_residual_computation', [c.guards for c in sk])
